@@ -558,3 +558,14 @@ def validate_trace(module, cfg, cases, workdir, tag="t", max_reject=8, timeout=9
             break
     accepted = len(cases) - len(rejected) - (len(remaining) if rejected and len(rejected) >= max_reject else 0)
     return accepted, rejected, states, gen
+
+
+# ---------------------------------------------------------------------------------------------
+# long-lived harness processes that call create many times (C19)
+# ---------------------------------------------------------------------------------------------
+# In this sandbox touching fresh pages is very slow (~60 MB/s) and every create allocates fresh ~100 MB zstd
+# contexts (about ten per archive): a 30-byte input costs 10-30 s per process.  With these glibc settings a harness
+# process keeps freed memory on its heap (no mmap/munmap per allocation, no trimming), so the pages are touched once
+# per process and later in-process creates run in milliseconds.  Only the allocator of the harness process is
+# affected, not what the code under test computes.
+REUSE_HEAP_ENV = {"MALLOC_ARENA_MAX": "1", "MALLOC_MMAP_MAX_": "0", "MALLOC_TRIM_THRESHOLD_": "1099511627776"}
